@@ -191,8 +191,22 @@ DEEP_COPYING = ("copy", "transpose", "head", "subsample", "generate_subsamples",
 
 
 def mutable_md_positions(t, ax):
+    """entries holding a list / mapping that no other entry of the same table references (tables derived through the
+    constructor's shallow re-wrap can hold one list under two IDs; copy() preserves that; an edit would then change
+    both entries — a consequence of the value sharing that is counted, not judged)"""
     md = t.metadata(axis=ax)
-    return [k for k, m in enumerate(md or ()) if any(isinstance(v, (list, dict)) for v in m.values())]
+    refs = {}
+    for a in AXES:
+        for m in (t.metadata(axis=a) or ()):
+            for v in m.values():
+                if isinstance(v, (list, dict)):
+                    refs[id(v)] = refs.get(id(v), 0) + 1
+    out = []
+    for k, m in enumerate(md or ()):
+        vs = [v for v in m.values() if isinstance(v, (list, dict))]
+        if vs and all(refs[id(v)] == 1 for v in vs):
+            out.append(k)
+    return out
 
 
 def edit_md_value(t, ax, pos):
